@@ -119,9 +119,13 @@ class G:
         c = self.ncid()
         args = list(dict.fromkeys(self.env.scalar() for _ in range(self.r.randint(0, 3))))
         pre = self.r.choice(["", "", "integer ", "real ", "logical ", "double precision "])
-        res = " result(%s)" % self.env.scalar() if self.p(0.3) else ""
+        rv = self.env.scalar() if self.p(0.3) else None
+        res = " result(%s)" % rv if rv else ""
         self.S("function", "%sfunction %s(%s)%s" % (pre, n, ", ".join(args), res), role="open", cid=c)
         self.depth += 1
+        if rv and not pre and self.p(0.6):
+            self.env.note(rv)
+            self.S("typedecl", "%s %s" % (self.r.choice(["integer", "real"]), rv))
         self.spec(True)
         self.execs(sub=True)
         self.depth -= 1
@@ -132,7 +136,9 @@ class G:
         c = self.ncid()
         self.S("module", "module " + n, role="open", cid=c)
         self.depth += 1
+        self.in_module = True
         self.spec(False, module=True)
+        self.in_module = False
         if self.p(0.6):
             self.S("contains", "contains", role="mid", cid=c)
             for _ in range(self.r.randint(1, 2)):
@@ -208,7 +214,12 @@ class G:
     def s_type(self):
         n = self.env.typename()
         c = self.ncid()
-        self.S("type_def", "type " + n, role="open", cid=c)
+        attrs = ""
+        if getattr(self, "in_module", False) and self.p(0.4):
+            attrs = ", " + self.r.choice(["public", "private"]) + " ::"
+        elif self.p(0.2):
+            attrs = " ::"
+        self.S("type_def", "type%s %s" % (attrs, n), role="open", cid=c)
         self.depth += 1
         for _ in range(self.r.randint(1, 3)):
             self.S("component", "%s :: %s" % (self.r.choice(["integer", "real", "character(len=8)", "logical"]), self.env.compname()))
